@@ -11,14 +11,18 @@ Amounts == IF MaxRows <= 2 THEN {D(-200, 2), D(100, 2), D(1050, 2), D(-123450, 2
 Payees == {"Grocery Shop", "給料"}
 
 \* the secondary amount a consistent statement shows for (amount, rate, direction)
+\* (a is the amount with the fee taken out: the statement's quantity column is what was bought or sold)
 SecFor(c, a, rt) == IF rt = NoRate THEN NoD
                     ELSE IF c \in {"extract_pop", "compute_pop"} THEN DecMul(DecAbs(a), rt.r) ELSE DecMul(DecAbs(a), rt.inv)
-Row(c, day, p, a, rt, note) == [day |-> day, payee |-> p, amt |-> a, rate |-> rt, sec |-> SecFor(c, a, rt), note |-> note]
+Row(c, day, p, a, rt, note, chg) ==
+  [day |-> day, payee |-> p, amt |-> a, rate |-> rt, sec |-> SecFor(c, IF chg = NoD THEN a ELSE DecAdd(a, chg), rt), note |-> note, chg |-> chg]
+Charges == {NoD, D(0, 2), D(100, 2)}
 
-Cfgs == {[atype |-> at, cols |-> cols, layout |-> lay, delim |-> dl, skip |-> sk, datefmt |-> df, order |-> ord, balance |-> bal, conv |-> cv, ruleconv |-> rc] :
+Cfgs == {[atype |-> at, cols |-> cols, layout |-> lay, delim |-> dl, skip |-> sk, datefmt |-> df, order |-> ord, balance |-> bal, conv |-> cv, ruleconv |-> rc, charge |-> ch] :
            at \in {"asset", "liability"}, cols \in {"amount", "creditdebit"}, lay \in {"index", "label", "template"}, dl \in {",", ";"},
            sk \in {0, 2}, df \in {"%Y-%m-%d", "%d.%m.%Y"}, ord \in {"old_to_new", "new_to_old"}, bal \in BOOLEAN,
-           cv \in {"none", "extract_pos", "compute_pos", "extract_pop", "compute_pop", "disabled"}, rc \in {"none", "disabled", "commodity"}}
+           cv \in {"none", "extract_pos", "compute_pos", "extract_pop", "compute_pop", "disabled"}, rc \in {"none", "disabled", "commodity"},
+           ch \in {"none", "column"}}
 
 \* pairwise-ish reduction for the quick tier: every value of every dimension with the conversion and order dimensions crossed fully
 Reduced(c) == \/ (c.delim = "," /\ c.skip = 0 /\ c.datefmt = "%Y-%m-%d")
@@ -27,13 +31,19 @@ Reduced(c) == \/ (c.delim = "," /\ c.skip = 0 /\ c.datefmt = "%Y-%m-%d")
 MCInit ==
   /\ cfg \in {c \in Cfgs : (c.balance => c.atype = "asset") /\ (MaxRows > 2 \/ Reduced(c))
                              /\ (c.ruleconv = "disabled" => c.conv \in {"extract_pos", "compute_pop"} /\ c.layout = "label")
-                             /\ (c.ruleconv = "commodity" => c.conv \in {"extract_pos", "compute_pos", "extract_pop"} /\ c.layout = "index")}
+                             /\ (c.ruleconv = "commodity" => c.conv \in {"extract_pos", "compute_pos", "extract_pop"} /\ c.layout = "index")
+                             \* a charge column: every conversion mode, both account types and column kinds, with and without a balance column
+                             /\ (c.charge = "column" => c.ruleconv = "none" /\ c.layout = "label" /\ c.order = "old_to_new" /\ c.conv # "disabled")}
   /\ opening \in {D(0, 0), D(50000, 2)}
   /\ \E n \in 1..MaxRows :
-       \E as \in [1..n -> Amounts], rts \in [1..n -> {NoRate, Rate2, RateHalf}] :
+       \E as \in [1..n -> Amounts], rts \in [1..n -> {NoRate, Rate2, RateHalf}], chs \in [1..n -> Charges] :
+         /\ (cfg.charge = "none" => \A k \in 1..n : chs[k] = NoD)
+         /\ (cfg.charge = "column" => /\ \E k \in 1..n : chs[k] \notin {NoD, D(0, 2)}
+                                       /\ opening = D(50000, 2)
+                                       /\ (MaxRows <= 2 => \A j \in 1..n : as[j] \in {D(-200, 2), D(1050, 2)}))
          /\ (cfg.conv = "none" => \A k \in 1..n : rts[k] = NoRate)
          /\ (cfg.ruleconv = "commodity" => \A k \in 1..n : rts[k] # NoRate)      \* a rule's conversion needs a rate on every row it matches
-         /\ rows = [k \in 1..n |-> Row(cfg.conv, k, IF k % 2 = 1 THEN "Grocery Shop" ELSE "給料", as[k], rts[k], IF k = 2 THEN "a note" ELSE "")]
+         /\ rows = [k \in 1..n |-> Row(cfg.conv, k, IF k % 2 = 1 THEN "Grocery Shop" ELSE "給料", as[k], rts[k], IF k = 2 THEN "a note" ELSE "", chs[k])]
 MCNext == UNCHANGED <<cfg, rows, opening>>
 MCSpec == MCInit /\ [][MCNext]_<<cfg, rows, opening>>
 
